@@ -17,12 +17,23 @@ fn safe_join(root: &Path, rel: &str) -> Option<PathBuf> {
     if p.is_absolute() {
         return None;
     }
+    // `.copia/` under the root is the hub's own control directory. It holds the
+    // commit lock, and a Put or Delete naming that file would replace or unlink it
+    // while other servers are queued on the old inode, splitting the lock in two.
+    // It is not client-addressable (List already hides it).
+    let mut first = true;
     for c in p.components() {
         if matches!(
             c,
             Component::ParentDir | Component::RootDir | Component::Prefix(_)
         ) {
             return None;
+        }
+        if first && c.as_os_str() == ".copia" {
+            return None;
+        }
+        if !matches!(c, Component::CurDir) {
+            first = false;
         }
     }
     Some(root.join(p))
